@@ -90,6 +90,10 @@ def step (s : St) (kind : String) (args impl : List String) : Option (St × Step
   | "tbl", shard :: entries => do
     let es ← entries.mapM entry?
     pure ({ s with curShard := shard, cur := es }, { branch := "tbl" })
+  | "op", ["conc", _, _, _] =>
+    -- concurrent Locations callers compared with a sequentially used twin ring by the harness (propfail lines);
+    -- the interleaved Refresh calls keep the membership, so the model state does not change
+    some (s, { obs := ["ok"], branch := "conc" })
   | "op", ["members", rid] => do
     let g ← getRing s rid
     pure (s, { obs := [listTok (sortStr g.st.addrs)], branch := "members" })
